@@ -806,3 +806,59 @@ func (c *Ctx) liftGuard(fn *ssa.Function, mk func(f *ssa.Function) guard, depth 
 	}
 	return out
 }
+
+// relGuard builds the guard "left REL right" (REL one of < <= > >=) from any
+// integer comparison between a left-like and a right-like operand, normalising
+// operand order and branch polarity: the success edge is the edge on which REL
+// is known to hold exactly. Comparisons from which REL does not follow exactly
+// on either edge (e.g. `<` where `<=` is required) are returned as odd.
+func relGuard(name string, fn *ssa.Function, left, right func(ssa.Value) bool, rel token.Token) (guard, []string) {
+	g := guard{name: name}
+	var odd []string
+	mirror := map[token.Token]token.Token{token.LSS: token.GTR, token.GTR: token.LSS, token.LEQ: token.GEQ, token.GEQ: token.LEQ}
+	neg := map[token.Token]token.Token{token.LSS: token.GEQ, token.GEQ: token.LSS, token.GTR: token.LEQ, token.LEQ: token.GTR}
+	ir.Instrs(fn, func(in ssa.Instruction) {
+		b, ok := in.(*ssa.BinOp)
+		if !ok {
+			return
+		}
+		if _, isCmp := neg[b.Op]; !isCmp {
+			return
+		}
+		var op token.Token
+		switch {
+		case left(b.X) && right(b.Y):
+			op = b.Op
+		case left(b.Y) && right(b.X):
+			op = mirror[b.Op]
+		default:
+			return
+		}
+		var wantTrue bool
+		switch {
+		case op == rel:
+			wantTrue = true
+		case neg[op] == rel:
+			wantTrue = false
+		default:
+			odd = append(odd, fmt.Sprintf("`left %s right` (neither it nor its negation is `left %s right`)", op, rel))
+			return
+		}
+		g.found++
+		n := 0
+		for _, tb := range ir.TrueBranches(b) {
+			if !wantTrue {
+				tb = tb.Flip()
+			}
+			if tb.Pol < 0 {
+				continue
+			}
+			g.sites = append(g.sites, guardSite{tb, in})
+			n++
+		}
+		if n == 0 {
+			g.unchecked = append(g.unchecked, in)
+		}
+	})
+	return g, odd
+}
